@@ -332,7 +332,7 @@ impl Prop for C02 {
         "C02"
     }
     fn rule_text(&self) -> String {
-        "case = (config generated from the whole action grammar incl. actions in every context, boundary numerics, nesting <= 3; hostile history: any key code, press/release/repeat/tap, repeated presses, orphan releases, floods of up to 300 events in one ms, TCP-style virtual key ops, gaps up to 70 000 ms, clock jumps). Only parser-accepted configs are executed (rejected ones are counted under skipped). non-trivial = the run produced at least one OS output event or reached a reach probe; distinct = distinct trace signature (sequence of output kind/key with gap buckets).".into()
+        "case = (config generated from the whole action grammar incl. actions in every context, boundary numerics, nesting <= 3; hostile history: any key code, press/release/repeat/tap, repeated presses, orphan releases, floods of up to 300 events in one ms, TCP-style virtual key ops, gaps up to 70 000 ms, clock jumps). Only parser-accepted configs are executed (rejected ones are counted under skipped). 3 of 8 cases advance time 2 / 7 / 300 ms per loop iteration (tick_ms(n)). non-trivial = the run produced at least one OS output event or reached a reach probe; distinct = distinct trace signature (sequence of output kind/key with gap buckets).".into()
     }
     fn runs(&self, tier: Tier) -> u64 {
         match tier {
